@@ -57,6 +57,17 @@ func load(root string) {
 			pkgDir[name] = filepath.Dir(p)
 		}
 		for _, d := range f.Decls {
+			if gd, ok := d.(*ast.GenDecl); ok && (gd.Tok == token.VAR || gd.Tok == token.CONST) {
+				for _, sp := range gd.Specs {
+					if vs, ok := sp.(*ast.ValueSpec); ok {
+						for i, id := range vs.Names {
+							if i < len(vs.Values) {
+								pkgVars[name+"."+id.Name] = vs.Values[i]
+							}
+						}
+					}
+				}
+			}
 			if fd, ok := d.(*ast.FuncDecl); ok && fd.Body != nil {
 				n := fd.Name.Name
 				if fd.Recv != nil {
@@ -595,6 +606,10 @@ func main() {
 	}
 	b.WriteString("]\n\nend Raven.Gen\n")
 	if err := os.WriteFile(*out+"/Facts.lean", []byte(b.String()), 0644); err != nil {
+		fmt.Fprintln(os.Stderr, err)
+		os.Exit(1)
+	}
+	if err := os.WriteFile(*out+"/Plan.lean", []byte(emitPlan()), 0644); err != nil {
 		fmt.Fprintln(os.Stderr, err)
 		os.Exit(1)
 	}
